@@ -124,7 +124,10 @@ func (e *Env) RunRep(p Pair, rep int) ([]Line, error) {
 	rec := &c10.Recorder{}
 	sc := &c10.Script{
 		Rec: rec, Level: 1, Scope: "read", JWKS: e.Keys.Documents(),
-		HTTP: func(time.Time) http.Header { return http.Header{"Cache-Control": []string{"public, max-age=60"}} },
+		// the response depends on the request's X-Val header, and says so
+		HTTP: func(time.Time) http.Header {
+			return http.Header{"Cache-Control": []string{"public, max-age=60"}, "Vary": []string{"X-Val"}}
+		},
 	}
 
 	e.Srv.Register(scope, sc)
